@@ -445,9 +445,48 @@ type gtGen struct {
 	poison float64 // probability that a vertex is poison
 	big    int     // how many counts of this geometry may still be a size threshold (64 … 2048)
 	prefix bool    // rings of a polygon / lines of a multi-line are prefixes of one base ring
+	dup    float64 // probability that a vertex repeats one of the last few vertices (coincident / degenerate input)
+	hist   []geom.Point
 }
 
+// pt: a vertex; with probability dup a copy of one of the last four vertices generated for this geometry
+// (mostly the previous one), so that lines, rings and boxes with coincident vertices, zero-length segments,
+// closed rings and all-equal members occur.
 func (g *gtGen) pt() geom.Point {
+	if g.dup > 0 && len(g.hist) > 0 && g.r.Chance(g.dup) {
+		k := len(g.hist) - 1
+		if g.r.Chance(0.3) {
+			k = g.r.Intn(len(g.hist))
+		}
+		return g.hist[k]
+	}
+	p := g.freshPt()
+	g.hist = append(g.hist, p)
+	if len(g.hist) > 4 {
+		g.hist = g.hist[1:]
+	}
+	return p
+}
+
+// bounds: the shapes a *Bounds takes in practice — a proper box, the bounds of a single point (Min == Max),
+// of a vertical / horizontal segment (zero width / zero height), the empty bounds of NewBounds()
+// (Min = +Inf, Max = -Inf), corners in the wrong order.
+func (g *gtGen) bounds() *geom.Bounds {
+	a, b := g.pt(), g.pt()
+	switch g.r.Intn(10) {
+	case 0, 1, 2:
+		b = a
+	case 3:
+		b.X = a.X
+	case 4:
+		b.Y = a.Y
+	case 5:
+		return geom.NewBounds()
+	}
+	return &geom.Bounds{Min: a, Max: b}
+}
+
+func (g *gtGen) freshPt() geom.Point {
 	x, y := unpoison(gtCoord(g.r)), gtCoord(g.r)
 	if g.poison > 0 && g.r.Chance(g.poison) {
 		x = math.Float64frombits(math.Float64bits(x)&^0xFF | poisonLow)
@@ -525,7 +564,7 @@ func (g *gtGen) geomOf(k, depth int, nilMembers bool) geom.Geom {
 		}
 		return m
 	case 6:
-		return &geom.Bounds{Min: g.pt(), Max: g.pt()}
+		return g.bounds()
 	default:
 		n := g.count()
 		m := make(geom.GeometryCollection, n)
@@ -600,6 +639,15 @@ func genGT(r *vproto.Rng, n int, emit func(string)) {
 		geom.MultiPolygon{}, geom.MultiPolygon{{}, {{}}}, geom.MultiPolygon{{{P(1, 1)}}}, geom.MultiPolygon{{{bad}}},
 		geom.MultiPolygon{{{P(0, 0), P(1, 0)}}, {{P(5, 5)}, {bad2}}, {{bad}}},
 		&geom.Bounds{Min: P(0, 0), Max: P(2, 3)}, &geom.Bounds{Min: P(0, 0), Max: bad}, &geom.Bounds{Min: bad, Max: bad2},
+		// degenerate boxes: bounds of a single point, the zero value, zero width, zero height, NewBounds()
+		&geom.Bounds{Min: P(1, 2), Max: P(1, 2)}, &geom.Bounds{}, geom.NewBoundsPoint(P(-3, 7)), P(5, 6).Bounds(),
+		&geom.Bounds{Min: P(1, 2), Max: P(1, 5)}, &geom.Bounds{Min: P(1, 2), Max: P(4, 2)}, geom.NewBounds(),
+		geom.GeometryCollection{&geom.Bounds{Min: P(4, 4), Max: P(4, 4)}, P(1, 2), geom.LineString{P(1, 1), P(1, 1)}.Bounds()},
+		// coincident vertices: repeated points, zero-length segments, closed and all-equal rings
+		geom.MultiPoint{P(1, 2), P(1, 2), P(1, 2)}, geom.LineString{P(0, 0), P(0, 0), P(1, 1), P(1, 1)},
+		geom.MultiLineString{{P(1, 1), P(1, 1)}, {P(1, 1), P(1, 1)}},
+		geom.Polygon{{P(0, 0), P(4, 0), P(4, 4), P(0, 0)}, {P(1, 1), P(1, 1), P(1, 1), P(1, 1)}},
+		geom.MultiPolygon{{{P(2, 2), P(2, 2), P(2, 2)}}, {{P(2, 2), P(2, 2), P(2, 2)}}},
 		geom.GeometryCollection{}, geom.GeometryCollection{P(1, 2), &geom.Bounds{Min: P(0, 0), Max: P(2, 3)}},
 		geom.GeometryCollection{geom.GeometryCollection{geom.MultiLineString{{bad2}}, geom.MultiPolygon{{{bad}}}}},
 		geom.GeometryCollection{geom.GeometryCollection{geom.GeometryCollection{geom.LineString{P(1, 2)}}}, bad},
@@ -652,6 +700,11 @@ func genGT(r *vproto.Rng, n int, emit func(string)) {
 			gg.big = 1 // one size threshold at exactly one nesting level
 		}
 		gg.prefix = strings.Contains(lay, "x") || r.Chance(0.1)
+		// one line in six: coincident vertices (repeats of the last few vertices), up to all vertices equal
+		gg.dup, gg.hist = 0, nil
+		if r.Chance(0.17) {
+			gg.dup = []float64{0.3, 0.7, 0.95}[r.Intn(3)]
+		}
 		// one line in four: some vertices are fixed points of the transformer (first / first of every member /
 		// last / both / a third of them / the whole first member)
 		fixMode := -1
